@@ -113,7 +113,7 @@ func c16Body(e *Env) {
 	evals := 0
 	work := make([]byte, len(img))
 	eval := func(dm *Damage) {
-		if e.Failed() {
+		if e.Failed() || (c.Damage == nil && outOfTime()) {
 			return
 		}
 		copy(work, img)
